@@ -83,6 +83,160 @@ def fold_module_constants(trees_by_name):
     return n
 
 
+# ------------------------------------------------------------------------------- P1c
+def _immutable_literal(v):
+    if isinstance(v, ast.Constant):
+        return isinstance(v.value, (str, int, float, bool, type(None), bytes))
+    if isinstance(v, ast.Tuple):
+        return all(_immutable_literal(x) for x in v.elts)
+    if isinstance(v, ast.UnaryOp) and isinstance(v.op, ast.USub):
+        return _immutable_literal(v.operand)
+    if isinstance(v, ast.Call) and isinstance(v.func, ast.Name) and v.func.id == 'frozenset' and len(v.args) == 1 \
+            and not v.keywords and isinstance(v.args[0], (ast.Tuple, ast.List, ast.Set)):
+        return all(_immutable_literal(x) for x in v.args[0].elts)
+    return False
+
+
+def _literal_table(v):
+    """a dict / list display of immutable literals (a look-up table)"""
+    if isinstance(v, ast.Dict):
+        return all(k is not None and _immutable_literal(k) for k in v.keys) and all(_immutable_literal(x) for x in v.values)
+    if isinstance(v, ast.List):
+        return all(_immutable_literal(x) for x in v.elts)
+    return False
+
+
+_READERS = {'values', 'keys', 'items', 'get', 'index', 'count', 'copy'}
+_CONSUMERS = {'len', 'list', 'tuple', 'sorted', 'zip', 'enumerate', 'set', 'frozenset', 'dict', 'sum', 'min', 'max',
+              'any', 'all', 'reversed', 'iter', 'itemgetter', 'chain'}
+
+
+def _read_only_uses(trees, name):
+    """every mention `<x>.name` in the package only reads the table: a reading method, a
+    subscript load, an iteration, a membership test, an argument of a consuming builtin"""
+    for t in trees:
+        parent = {}
+        for n in ast.walk(t):
+            for c in ast.iter_child_nodes(n):
+                parent[id(c)] = n
+        for n in ast.walk(t):
+            if not (isinstance(n, ast.Attribute) and n.attr == name):
+                continue
+            if not isinstance(n.ctx, ast.Load):
+                return False
+            p = parent.get(id(n))
+            if isinstance(p, ast.Starred):
+                p2 = parent.get(id(p))
+                if isinstance(p2, ast.Call):
+                    continue
+                return False
+            if isinstance(p, ast.Attribute) and p.attr in _READERS and isinstance(parent.get(id(p)), ast.Call):
+                continue
+            if isinstance(p, ast.Subscript) and p.value is n and isinstance(p.ctx, ast.Load):
+                continue
+            if isinstance(p, (ast.For, ast.comprehension)) and p.iter is n:
+                continue
+            if isinstance(p, ast.Compare) and n in p.comparators and all(isinstance(o, (ast.In, ast.NotIn)) for o in p.ops):
+                continue
+            if isinstance(p, ast.Call) and n in p.args and isinstance(p.func, ast.Name) and p.func.id in _CONSUMERS:
+                continue
+            return False
+    return True
+
+
+def fold_class_constants(trees):
+    """P1c: `NAME = <immutable literal>` bound once in a plain class body (not an Enum, no
+    dataclass/NamedTuple fields) and stored through no attribute anywhere is replaced by the
+    literal where it is read as self.NAME / cls.NAME / type(self).NAME / Class.NAME."""
+    stored = set()
+    for t in trees:
+        for n in ast.walk(t):
+            if isinstance(n, ast.Attribute) and isinstance(n.ctx, (ast.Store, ast.Del)):
+                stored.add(n.attr)
+            elif isinstance(n, ast.Call) and isinstance(n.func, ast.Name) and n.func.id == 'setattr':
+                return 0
+    classes = {}
+    for t in trees:
+        for n in ast.walk(t):
+            if isinstance(n, ast.ClassDef):
+                classes.setdefault(n.name, n)
+    consts = {}          # (class, NAME) -> literal
+    by_name = {}
+    for cn, c in classes.items():
+        bases = [b.id if isinstance(b, ast.Name) else getattr(b, 'attr', '?') for b in c.bases]
+        if any(b not in classes and b not in ('object', 'ABC') for b in bases) or c.decorator_list:
+            continue       # Enum members, NamedTuple / dataclass fields are not plain constants
+        cnt = {}
+        for b in c.body:
+            for x in ast.walk(b) if not isinstance(b, (ast.FunctionDef, ast.AsyncFunctionDef, ast.ClassDef)) else []:
+                if isinstance(x, ast.Name) and isinstance(x.ctx, ast.Store):
+                    cnt[x.id] = cnt.get(x.id, 0) + 1
+        for b in c.body:
+            tgt = val = None
+            if isinstance(b, ast.Assign) and len(b.targets) == 1 and isinstance(b.targets[0], ast.Name):
+                tgt, val = b.targets[0].id, b.value
+            elif isinstance(b, ast.AnnAssign) and isinstance(b.target, ast.Name) and b.value is not None:
+                tgt, val = b.target.id, b.value
+            if tgt and cnt.get(tgt) == 1 and tgt not in stored and (
+                    _immutable_literal(val) or (_literal_table(val) and _read_only_uses(trees, tgt))):
+                consts[(cn, tgt)] = val
+                by_name.setdefault(tgt, []).append(cn)
+    if not consts:
+        return 0
+    n = [0]
+
+    class Sub(ast.NodeTransformer):
+        def __init__(self):
+            self.cls = [None]
+
+        def visit_ClassDef(self, node):
+            self.cls.append(node.name)
+            self.generic_visit(node)
+            self.cls.pop()
+            return node
+
+        def visit_Attribute(self, node):
+            self.generic_visit(node)
+            if not isinstance(node.ctx, ast.Load):
+                return node
+            b = node.value
+            owner = None
+            if isinstance(b, ast.Name) and b.id in ('self', 'cls'):
+                owner = self.cls[-1]
+            elif isinstance(b, ast.Call) and isinstance(b.func, ast.Name) and b.func.id == 'type' and len(b.args) == 1:
+                owner = self.cls[-1]
+            elif isinstance(b, ast.Name) and b.id in classes:
+                owner = b.id
+            if owner is None:
+                return node
+            v = consts.get((owner, node.attr))
+            if v is None and len(by_name.get(node.attr, [])) == 1:
+                # inherited from / defined by the only class that has it
+                k = by_name[node.attr][0]
+                c = classes.get(owner)
+                seen = set()
+                while c is not None and c.name not in seen:
+                    seen.add(c.name)
+                    if c.name == k:
+                        v = consts[(k, node.attr)]
+                        break
+                    nxt = None
+                    for bb in c.bases:
+                        bn = bb.id if isinstance(bb, ast.Name) else getattr(bb, 'attr', None)
+                        if bn in classes:
+                            nxt = classes[bn]
+                            break
+                    c = nxt
+            if v is None:
+                return node
+            n[0] += 1
+            return ast.copy_location(copy.deepcopy(v), node)
+    for t in trees:
+        Sub().visit(t)
+        ast.fix_missing_locations(t)
+    return n[0]
+
+
 # ------------------------------------------------------------------------------- P2
 def _nt_decl(st):
     """(type name, [fields]) for a named-tuple declaration statement, else None"""
